@@ -162,7 +162,9 @@ func VH_C08_Descriptors() {
 	c08decode(0, c08cshape{kind: 6}, []c08dshape{d})
 }
 
-// descriptor pairs (quick: a reduced set; thorough: all pairs) and the empty loop
+// descriptor pairs and the empty loop. quick: every shape first, one derived partner; thorough:
+// every shape first, 17 partners (16 spread over the shape list + the derived one). The full
+// square (387^2 x 2 = 300k jobs) was tried and does not finish in 45 min.
 func VH_C08_Pairs() {
 	ds := c08descShapes()
 	var i, j int
@@ -171,7 +173,12 @@ func VH_C08_Pairs() {
 		i, j = k, (k*5+3)%len(ds)
 	} else {
 		i = vrt.Choose("first", 0, len(ds)-1)
-		j = vrt.Choose("second", 0, len(ds)-1)
+		k := vrt.Choose("second", 0, 16)
+		if k == 16 {
+			j = (i*5 + 3) % len(ds)
+		} else {
+			j = (k*len(ds)/16 + k) % len(ds)
+		}
 	}
 	cmd := vrt.Choose("command", 0, 1)
 	cs := []c08cshape{{kind: 0}, {kind: 5, program: true, hasDur: true}}[cmd]
